@@ -277,6 +277,32 @@ def inE2EFragment (i : E2EIn) : Bool :=
     | none => false
     | some b => fragGo i b
 
+/-- `Dce.dce_file_preserves`: the compiled file (before dead-code elimination) satisfies the
+    per-file contract of the DCE theorem (`Dce.fileDceOK`: every function's body inside the contract
+    of `dce_preserves_syn` for its parameter environment, function names distinct) -/
+def fragDce (b : BackStages) : Bool := Dce.fileDceOK b.pre
+
+/-- the fragment of `core_to_emitted_go_preserves`: `inE2EFragment` and the DCE contract of the
+    compiled file -/
+def inEmitFragment (i : E2EIn) : Bool :=
+  inE2EFragment i &&
+    match backStages i with
+    | none => false
+    | some b => fragDce b
+
+/-- which functions of the compiled file are outside the DCE contract (reports only) -/
+def dceReasons (i : E2EIn) : List String :=
+  match backStages i with
+  | none => []
+  | some b =>
+    (if decide ((b.pre.funcs.map (·.name)).Nodup) then [] else ["dce:duplicate-function-names"]) ++
+    (b.pre.funcs.filter (fun f => !Dce.fnDceOK f)).map fun f =>
+      "dce:" ++ f.name ++ ":" ++
+        (if (f.params.map (·.1)).contains "_" then "blank-parameter"
+         else if !(Dce.scopeErrs (Dce.localsOf f) (f.params.map (·.1)) f.body).isEmpty then "scope"
+         else if !Dce.shapeOK f.body then "shape"
+         else "semOK")
+
 /-- why a program is outside the back end's fragment (reports only): the reason `main` is -/
 def goReasons (i : E2EIn) : List String :=
   match backStages i with
